@@ -49,7 +49,7 @@ FAULTS_COMMON = ["close_ok", "close_away", "close_err", "reset", "stall", "garba
 
 def run(tape, prop, tier):
     res = Result()
-    flavour = tape.choice(["generic", "binance", "bitstamp_pub", "bitstamp_priv", "binance"])
+    flavour = tape.choice(["generic", "binance", "bitstamp_pub", "bitstamp_priv", "binance", "bitstamp_exchange"])
     backoff = tape.choice([1.0, 0.5, 3.0])
     n_init = 1 + tape.draw(3)
     n_later = tape.draw(3)
@@ -59,7 +59,7 @@ def run(tape, prop, tier):
         kinds += ["key_expired", "key_expired", "listen_key_fail", "keepalive_fail"]
     if flavour.startswith("bitstamp"):
         kinds += ["reconnect_request", "reconnect_request"]
-    if flavour == "bitstamp_priv":
+    if flavour in ("bitstamp_priv", "bitstamp_exchange"):
         kinds += ["token_fail"]
     nf = tape.draw(7)
     faults = sorted((tape.int(30, 600) / 10.0, tape.choice(kinds)) for _ in range(nf))
@@ -69,6 +69,10 @@ def run(tape, prop, tier):
     # which channels: binance -> trade channels + user data kinds
     if flavour == "binance":
         pool = ["trade:BTCUSDT", "ud:spot", "trade:ETHUSDT", "ud:cross", "ud:iso", "trade:BNBUSDT"]
+    elif flavour == "bitstamp_exchange":
+        # through the Exchange API: one public and one private websocket client in the same run
+        pool = ["live_trades_btcusd", "private-my_orders_btcusd", "order_book_btcusd", "private-my_trades_btcusd",
+                "live_orders_btcusd", "live_trades_ethusd"]
     elif flavour == "bitstamp_priv":
         pool = ["private-my_orders_btcusd", "private-my_trades_btcusd", "private-my_orders_ethusd", "private-my_trades_ethusd",
                 "private-my_orders_xrpusd"]
@@ -80,6 +84,8 @@ def run(tape, prop, tier):
     for i in range(len(order) - 1):
         j = i + tape.draw(len(order) - i)
         order[i], order[j] = order[j], order[i]
+    if flavour == "bitstamp_exchange":
+        n_init, n_later, later_at = n_init + n_later, 0, []        # the Exchange API registers before the run only
     chans = [pool[i] for i in order][:n_init + n_later]
     init_ch = chans[:n_init]
     later_ch = list(zip(later_at, chans[n_init:]))
@@ -111,7 +117,7 @@ def run(tape, prop, tier):
                 if stream.endswith("@trade"):
                     return "trade:" + stream[:-6].upper()
                 return None
-            if flavour == "bitstamp_priv" and stream.endswith("-777"):
+            if flavour in ("bitstamp_priv", "bitstamp_exchange") and stream.endswith("-777"):
                 return stream[:-4]
             return stream
 
@@ -148,7 +154,7 @@ def run(tape, prop, tier):
             ws = web.WebSocketResponse()
             await ws.prepare(request)
             c = dict(id=len(L["conns"]) + 1, ws=ws, t_open=loop.time(), subs={}, conn=request.transport.conn,
-                     t_bad=None, closed_at=None)
+                     t_bad=None, closed_at=None, client=getattr(request.transport.conn, "client", None))
             L["conns"].append(c)
             pump = asyncio.ensure_future(pumper(c))
             try:
@@ -163,9 +169,10 @@ def run(tape, prop, tier):
                     elif flavour.startswith("bitstamp") and m.get("event") == "bts:subscribe":
                         names = [m["data"]["channel"]]
                         reply = {"event": "bts:subscription_succeeded", "channel": names[0], "data": {}}
-                        if flavour == "bitstamp_priv" and not str(m["data"].get("auth", "")).startswith("tok"):
+                        private = flavour == "bitstamp_priv" or (flavour == "bitstamp_exchange" and names[0].startswith("private-"))
+                        if private and not str(m["data"].get("auth", "")).startswith("tok"):
                             L["errors"].append(f"private subscription without a token: {m}")
-                        if flavour == "bitstamp_priv" and not names[0].endswith("-777"):
+                        if private and not names[0].endswith("-777"):
                             L["errors"].append(f"private subscription without the user id in the channel name: {m}")
                     elif flavour == "generic" and m.get("op") == "sub":
                         names = list(m["channels"])
@@ -227,7 +234,8 @@ def run(tape, prop, tier):
             if flavour.startswith("bitstamp"):
                 reg = chan_of_stream(name)
                 return {"event": "trade" if "trades" in name else "data" if "order_book" in name else "order_created",
-                        "channel": reg, "data": {"uid": n}}
+                        "channel": reg, "data": {"uid": n, "microtimestamp": str(ts * 1000), "timestamp": str(ts // 1000),
+                                                 "bids": [], "asks": [], "id": n, "order_type": 0}}
             return {"ch": name, "id": n}
 
         async def handler(request):
@@ -254,6 +262,9 @@ def run(tape, prop, tier):
         def mk_handler(reg):
             async def h(ev):
                 uid = getattr(ev, "uid", None)
+                if uid is None and flavour == "bitstamp_exchange":
+                    obj = getattr(ev, "order_book", None) or getattr(ev, "trade", None) or getattr(ev, "order", None)
+                    uid = obj.json.get("uid")
                 if uid is None:
                     js = getattr(ev, "json", None)
                     if js is not None:
@@ -294,6 +305,10 @@ def run(tape, prop, tier):
             from basana.external.binance import spot as bspot, cross_margin as bcross, isolated_margin as biso
             e = bex.Exchange(d, "k", "s", session=sess, config_overrides=cfg)
             cli = None
+        elif flavour == "bitstamp_exchange":
+            from basana.external.bitstamp import exchange as sex
+            e = sex.Exchange(d, "k", "s", session=sess, config_overrides=cfg)
+            cli = None
         else:
             from basana.external.bitstamp import websockets as sws
             if flavour == "bitstamp_pub":
@@ -312,7 +327,27 @@ def run(tape, prop, tier):
                 return (biso.IsolatedMarginUserDataChannel(bs.Pair("BTC", "USDT")), lambda w: user_data.WebSocketEventSource(w))
             return (ch(), lambda w: user_data.WebSocketEventSource(w))
 
-        if flavour == "binance":
+        clients = {}
+        if flavour == "bitstamp_exchange":
+            pair_of = {"btcusd": bs.Pair("BTC", "USD"), "ethusd": bs.Pair("ETH", "USD")}
+            for reg in init_ch:
+                pr = pair_of[reg[-6:]]
+                h_ = mk_handler(reg)
+                if reg.startswith("live_trades"):
+                    e.subscribe_to_public_trade_events(pr, h_)
+                elif reg.startswith("live_orders"):
+                    e.subscribe_to_public_order_events(pr, h_)
+                elif reg.startswith("order_book"):
+                    e.subscribe_to_order_book_events(pr, h_)
+                elif reg.startswith("private-my_orders"):
+                    e.subscribe_to_private_order_events(pr, h_)
+                else:
+                    e.subscribe_to_private_trade_events(pr, h_)
+                who = "priv" if reg.startswith("private-") else "pub"
+                L["regs"].append((0.0, reg, who))
+                clients[who] = e._get_priv_ws_client() if who == "priv" else e._get_pub_ws_client()
+            cli = None
+        elif flavour == "binance":
             # initial channels through the public Exchange API; this also creates the websocket client
             for reg in init_ch:
                 kind, _, arg = reg.partition(":")
@@ -324,7 +359,7 @@ def run(tape, prop, tier):
                     e.cross_margin_account.subscribe_to_user_data_events(mk_handler(reg))
                 else:
                     e.isolated_margin_account.subscribe_to_user_data_events(bs.Pair("BTC", "USDT"), mk_handler(reg))
-                L["regs"].append((0.0, reg))
+                L["regs"].append((0.0, reg, "main"))
             cli = e._ws_mgr._get_ws_client()
             for _, reg in later_ch:
                 ch, fac = binance_channel(reg)
@@ -336,17 +371,29 @@ def run(tape, prop, tier):
                 src = Src(cli)
                 register(reg, src)
                 d.subscribe(src, mk_handler(reg))
-                L["regs"].append((0.0, reg))
+                L["regs"].append((0.0, reg, "main"))
             for _, reg in later_ch:
                 src = Src(cli)
                 d.subscribe(src, mk_handler(reg))
                 late_sources[reg] = src
-        cli.backoff_secs = backoff
-        orig_on_error = cli.on_error
+        if cli is not None:
+            clients["main"] = cli
 
         async def on_error(err):
             L["errors"].append(repr(err)[:120])
-        cli.on_error = on_error
+
+        def tag_main(c_, who):
+            orig = c_.main
+
+            async def main_tagged():
+                netmod_CLIENT.set(who)
+                await orig()
+            c_.main = main_tagged
+        from ..net import CLIENT as netmod_CLIENT
+        for who, c_ in clients.items():
+            c_.backoff_secs = backoff
+            c_.on_error = on_error
+            tag_main(c_, who)
 
         # ------------------------------------------------------------ the director
         def live():
@@ -369,7 +416,7 @@ def run(tape, prop, tier):
                         cli.set_channel_event_source_ex(ch, src)
                     else:
                         register(arg, late_sources[arg])
-                    L["regs"].append((loop.time(), arg))
+                    L["regs"].append((loop.time(), arg, "main"))
                     if lv:
                         res.probes["registration_while_connected"] += 1
                     continue
@@ -448,7 +495,7 @@ def run(tape, prop, tier):
         dt_.cancel()
         await sess.close()
         await server.shutdown(0.5)
-        out["attempts"] = [(t, o) for (t, h, o) in net.attempts if h == "ws.sim"]
+        out["attempts"] = [(t, o, who) for (t, h, o, who) in net.attempts if h == "ws.sim"]
         return loop
 
     try:
@@ -476,7 +523,7 @@ def run(tape, prop, tier):
             if name.endswith("@trade"):
                 return "trade:" + name[:-6].upper()
             return None
-        if flavour == "bitstamp_priv" and name.endswith("-777"):
+        if flavour in ("bitstamp_priv", "bitstamp_exchange") and name.endswith("-777"):
             return name[:-4]
         return name
 
@@ -496,10 +543,13 @@ def run(tape, prop, tier):
             seen.add(u)
     # ---- back-off
     att = out["attempts"]
-    for (t1, o1), (t2, o2) in zip(att, att[1:]):
-        if t2 - t1 < backoff - 1e-5:
-            V("backoff", f"connection attempts at t={t1:.6f} ({o1}) and t={t2:.6f} ({o2}) are {t2 - t1:.6f} s apart, back-off is {backoff} s")
-            break
+    for who in sorted({w for _, _, w in att}, key=str):
+        mine = [(t, o) for t, o, w in att if w == who]
+        for (t1, o1), (t2, o2) in zip(mine, mine[1:]):
+            if t2 - t1 < backoff - 1e-5:
+                V("backoff", f"connection attempts of client {who} at t={t1:.6f} ({o1}) and t={t2:.6f} ({o2}) are {t2 - t1:.6f} s "
+                             f"apart, back-off is {backoff} s")
+                break
     # ---- convergence per healthy connection
     regs = L["regs"]
     conns = L["conns"]
@@ -507,7 +557,9 @@ def run(tape, prop, tier):
     for c in conns:
         h = c["t_bad"] if c["t_bad"] is not None else t_final
         subs_here = [(t, names) for (t, cid, names) in L["subs"] if cid == c["id"]]
-        for (r, reg) in regs:
+        for (r, reg, who) in regs:
+            if who != c["client"]:
+                continue
             deadline = max(c["t_open"], r) + S
             if deadline < h and r < h:
                 ok = any(t <= deadline + 1e-9 and any(reg_of(n) == reg for n in names) for (t, names) in subs_here
@@ -532,12 +584,12 @@ def run(tape, prop, tier):
                                                         f"connection within {S} s (fresh keys issued: {sorted(fresh)})")
     # ---- final convergence
     if L["final"] is not None:
-        want = {reg for (r, reg) in regs}
-        okc = None
-        for (cid, subs, t_open) in L["final"]:
-            have = {reg_of(n) for n in subs}
-            if want <= have:
-                okc = cid
+        okc = True
+        for who in sorted({w for _, _, w in regs}):
+            want = {reg for (r, reg, w) in regs if w == who}
+            if not any(want <= {reg_of(n) for n in subs} for (cid, subs, t_open) in L["final"]):
+                okc = None
+        want = {reg for (r, reg, w) in regs}
         if okc is None:
             V("not-converged", f"{t_final - t_last_fault:.1f} s after the last fault/registration no live connection has every "
                                f"registered channel subscribed: registered {sorted(want)}, live connections "
@@ -585,5 +637,5 @@ def run(tape, prop, tier):
     res.xdigest = digest_of((flavour, sorted(kinds_fired), [v[1] for v in res.violations]))
     res.digest = digest_of(([(round(c["t_open"], 6), sorted(c["subs"])) for c in conns],
                             [(round(t, 6), cid, sorted(n)) for t, cid, n in L["subs"]],
-                            [(round(t, 6), o) for t, o in att], {k: len(v) for k, v in L["got"].items()}))
+                            [(round(t, 6), o, w) for t, o, w in att], {k: len(v) for k, v in L["got"].items()}))
     return res
